@@ -39,6 +39,7 @@ type prodCfg struct {
 	Sync         bool    `json:"sync"`
 	MaxReqSize   int     `json:"maxReqSize"`
 	InitPidFault string  `json:"initPidFault"`
+	IDBase0      bool    `json:"idBase0"` // broker ids start at 0 instead of 1
 	GrowIc       int     `json:"growIc"`  // > 0: the first interceptor appends this many bytes to the value
 	PanicIc      int     `json:"panicIc"` // 1-based index of an interceptor that panics after logging (0 = none)
 }
@@ -238,6 +239,9 @@ func runProducerScenario(t testing.TB, rec *vRec, sc *prodScenario) {
 
 	c := newSimCluster(t, rec, cfgv.NBrokers, cfgv.Leaders)
 	defer c.Close()
+	if cfgv.IDBase0 {
+		c.SetIDBase(0)
+	}
 	for k, p := range sc.Plans {
 		var n int
 		fmt.Sscanf(k, "%d", &n)
